@@ -84,7 +84,7 @@ class Gen:
         rng = self.rng
         self.depth += 1
         try:
-            k = rng.randrange(13 if self.depth < 4 else 4)
+            k = rng.randrange(15 if self.depth < 4 else 4)
             if k in (0, 1):
                 return "acc += '|' + %s;" % self.expr()
             if k == 2:
@@ -133,6 +133,19 @@ class Gen:
                     rng.shuffle(items)
                     return "%s %s acc += 'M' + (await Promise.all([%s])).join(',');" % (decl, pre, ", ".join(items))
                 return "%s %s" % (decl, " ".join("acc += 'S' + (await p%d);" % i for i in order))
+            if k in (13, 14):
+                # a rejection that has to leave one or more async functions that have no handler of their own
+                f = "rej%d" % self.val()
+                err = rng.choice(["await order({err: 'N%d'})", "await order({err: 'P%d', p: true})", "await Promise.reject('Q%d')", "(await order({v: 1}), undefinedFn%d())"]) % self.val()
+                self.helpers.append("async function %s(n) { acc += 'r' + n; if (n > 0) { const y = await %s(n - 1); return y + 1; } const z = %s; return z; }" % (f, f, err))
+                d = rng.randint(0, 2)
+                return rng.choice([
+                    "try { acc += 'Y' + (await %s(%d)); } catch (e) { acc += 'J' + (e && e.name || e); }" % (f, d),
+                    "acc += 'K' + (await %s(%d).catch(e => 'k' + (e && e.name || e)));" % (f, d),
+                    "acc += 'U' + (await Promise.allSettled([%s(%d), order({v: 5, p: true})])).map(r => r.status[0]).join('');" % (f, d),
+                    "try { await Promise.all([order({v: 6, p: true}), %s(%d)]); } catch (e) { acc += 'W' + (e && e.name || e); }" % (f, d),
+                    "const h%d = %s(%d); h%d.catch(() => {}); acc += 'h' + %s; try { await h%d; } catch (e) { acc += 'H' + (e && e.name || e); }" % (self.k, f, d, self.k, self.aw(), self.k),
+                ])
             d = self.val()
             return "const {da%d = %s, db%d = 2} = {}; acc += 'D' + (da%d + db%d);" % (d, self.aw(), d, d, d)
         finally:
@@ -150,6 +163,11 @@ class Gen:
 
 
 CORPUS = [
+    # a rejection after a real suspension leaves async functions that have no handler of their own (found on the unchanged tree; fixed)
+    "async function inner() { const v = await order({err: 'boom'}); return v; } async function main() { try { await inner(); return 'no'; } catch (e) { return 'caught:' + e; } }",
+    "async function inner() { const v = await order({err: 'boom', p: true}); return v; } async function main() { try { await inner(); return 'no'; } catch (e) { return 'caught:' + e; } }",
+    "async function inner() { return await order({err: 'boom', p: true}); } async function main() { let out = 'none'; inner().catch(e => { out = 'c:' + e; }); await order({v: 1}); await order({v: 2}); return out; }",
+    "async function a() { return await order({err: 'x', p: true}); } async function b() { return (await a()) + 1; } async function main() { try { await b(); return 'no'; } catch (e) { return 'caught ' + e; } }",
     "async function f() { try { return 1; } finally { await order({v: 0}); } } async function main() { return String(await f()); }",
     "async function f() { try { throw 'x'; } finally { await order({v: 0}); } } async function main() { try { return String(await f()); } catch (e) { return 'caught:' + e; } }",
     "class A { constructor() { this.v = 5; } async m() { await order({v: 0}); return this.v; } } async function main() { return String(await new A().m()); }",
